@@ -1504,7 +1504,15 @@ struct TemplateCore {
             }
 
             case QOperation::Remainder: { // %
-                left.Value.Number.Integer = (left % right);
+                const SizeT64I divisor = ((right.Type == ExpressionType::RealNumber) ? SizeT64I(right.Value.Number.Real)
+                                                                                     : right.Value.Number.Integer);
+
+                if (divisor == 0) {
+                    return false; // No value, as for division by zero.
+                }
+
+                // x % -1 is 0 for every x; the machine instruction traps for the smallest integer.
+                left.Value.Number.Integer = ((divisor != -1) ? (left % right) : 0);
                 left.Type                 = ExpressionType::IntegerNumber;
                 break;
             }
